@@ -401,3 +401,339 @@ Proof.
       * intros j Hj. assert (j = l1) by lia. now subst.
       * apply slice_forall; try lia. intros j Hj. apply HN. lia.
 Qed.
+
+(* ---- everything about one string, in one place ------------------------------------- *)
+Lemma cut_text : forall s b m e c, 0 <= b <= m -> m <= e -> e <= slen s -> m - b = Z.of_nat c ->
+  slice s b m = firstn c (slice s b e) /\ slice s m e = skipn c (slice s b e).
+Proof.
+  intros s b m e c Hb Hm He Hc. rewrite (slice_app s b m e) by lia.
+  assert (c = length (slice s b m)) as -> by (pose proof (slice_length s b m); lia).
+  split; [now rewrite firstn_length_app|now rewrite skipn_length_app].
+Qed.
+
+Lemma ranges_summary : forall s, exists fb fe m pb pe,
+  filename_range s = Ok (fb, fe) /\ stem_range s = Ok (fb, m) /\
+  extension_range s = Ok (if fb =? m then (fb, m) else (m, slen s)) /\
+  parent_path_range s = Ok (pb, pe) /\
+  0 <= fb <= m /\ m <= fe /\ fe <= slen s /\ (fb < fe -> fe = slen s /\ fb < m) /\ (fb = fe -> fb = 0) /\
+  0 <= pb <= pe /\ pe <= slen s /\
+  slice s fb fe = std_filename s /\ slice s fb m = std_stem s /\
+  slice s (if fb =? m then fb else m) (if fb =? m then m else slen s) = std_extension s /\
+  as_path (slice s pb pe) = std_parent_path s.
+Proof.
+  intros s.
+  destruct (filename_range_spec s) as (fb & fe & Hfn & Hfb & Hfe & Hft & Hfull & Hz).
+  destruct (stem_range_spec s fb fe Hfn Hfb Hfe) as (m & Hst & Hm & Hlt & Hcut).
+  destruct (parent_path_range_spec s) as (pb & pe & Hpp & Hpb & Hpe & Hpt).
+  exists fb, fe, m, pb, pe.
+  destruct (cut_text s fb m fe (ext_cut (slice s fb fe)) ltac:(lia) ltac:(lia) Hfe Hcut) as [Hs1 Hs2].
+  rewrite Hft in Hs1, Hs2.
+  split; [exact Hfn|]. split; [exact Hst|]. split; [now apply extension_from_stem|]. split; [exact Hpp|].
+  split; [lia|]. split; [lia|]. split; [lia|]. split; [intros H; split; [apply Hfull|apply Hlt]; lia|].
+  split; [exact Hz|]. split; [lia|]. split; [lia|]. split; [exact Hft|]. split; [exact Hs1|].
+  split; [|exact Hpt].
+  fold (std_extension s) in Hs2. unfold std_extension in *.
+  destruct (fb =? m) eqn:E.
+  - assert (fb = m) by lia. subst m. rewrite slice_nil.
+    assert (fb = fe) by (destruct (Z.eq_dec fb fe); [assumption|specialize (Hlt ltac:(lia)); lia]).
+    subst fe. rewrite <- Hs2. now rewrite slice_nil.
+  - assert (fe = slen s) by (apply Hfull; lia). subst fe. exact Hs2.
+Qed.
+
+Lemma view_text_range : forall s b e, view_text s (range_string_view (b, e)) = slice s b e.
+Proof. intros. unfold view_text, range_string_view, rbegin, rend. cbn [fst snd]. f_equal. lia. Qed.
+
+Lemma rootr_text : forall s, slice s (rbegin (rootr s)) (rend (rootr s)) = std_root_directory s.
+Proof.
+  intros s. pose proof (K_range s) as HK. unfold std_root_directory. rewrite has_root_dir_K.
+  unfold rootr, rbegin, rend. destruct (K s =? 0) eqn:E; cbn [fst snd].
+  - replace (0 <? K s) with false by lia. apply slice_nil.
+  - replace (0 <? K s) with true by lia.
+    replace (K s) with (K s - 1 + 1) at 2 by lia. rewrite slice_one by lia.
+    pose proof (K_seps s (K s - 1) ltac:(lia)) as H. unfold is_sep in H. f_equal. lia.
+Qed.
+
+Lemma rootr_bounds : forall s, 0 <= rbegin (rootr s) <= rend (rootr s) /\ rend (rootr s) <= slen s.
+Proof. intros s. pose proof (K_range s). rewrite rootr_begin, rootr_end. lia. Qed.
+
+(* ---- the queries ------------------------------------------------------------------- *)
+Definition no_nul (s : mstr) : Prop := ~ In 0 s.
+
+Lemma znth_In : forall s i, 0 <= i < slen s -> In (znth s i) s.
+Proof. intros s i H. unfold znth, slen in *. apply nth_In. lia. Qed.
+
+Lemma rel_nonempty_no_nul : forall s, no_nul s ->
+  negb (znth s (K s) =? 0) = std_has_relative_path s.
+Proof.
+  intros s Hn. pose proof (K_range s) as HK. unfold std_has_relative_path, std_relative_path.
+  rewrite drop_seps_slice, is_nil_slice by lia.
+  destruct (Z.eq_dec (K s) (slen s)) as [E|E].
+  - rewrite E, znth_len. lia.
+  - assert (znth s (K s) <> 0) by (intros Q; apply Hn; rewrite <- Q; apply znth_In; lia). lia.
+Qed.
+
+Lemma is_empty_range_rootr : forall s, negb (is_empty_range (rootr s)) = has_root_dir s.
+Proof.
+  intros s. pose proof (K_range s). rewrite has_root_dir_K. unfold rootr, is_empty_range, rbegin, rend.
+  destruct (K s =? 0) eqn:E; cbn [fst snd]; lia.
+Qed.
+
+Lemma std_has_root_directory_eq : forall s, std_has_root_directory s = has_root_dir s.
+Proof. intros s. unfold std_has_root_directory, std_root_directory. now destruct (has_root_dir s). Qed.
+
+Lemma std_has_root_path_eq : forall s, std_has_root_path s = has_root_dir s.
+Proof. intros s. unfold std_has_root_path, std_root_path, std_root_name. cbn [app]. apply std_has_root_directory_eq. Qed.
+
+Lemma nonempty_range_text : forall s b e, 0 <= b <= e -> e <= slen s ->
+  negb (is_empty_range (b, e)) = negb (is_nil (slice s b e)).
+Proof. intros. rewrite is_nil_slice by lia. reflexivity. Qed.
+
+(* all ten queries; has_relative_path is `path[root.end] != 0` *)
+Lemma zix_queries_some : forall s,
+  zix_queries (Some s) =
+  Ok [std_has_root_path s; std_has_root_name s; std_has_root_directory s; negb (znth s (K s) =? 0);
+      std_has_parent_path s; std_has_filename s; std_has_stem s; std_has_extension s;
+      std_is_absolute s; std_is_relative s].
+Proof.
+  intros s. pose proof (K_range s) as HK. pose proof (slen_nonneg s) as Hl.
+  destruct (ranges_summary s) as (fb & fe & m & pb & pe & Hfn & Hst & Hex & Hpp & B1 & B2 & B3 & B4 & B5 &
+                                  B6 & B7 & Tf & Ts & Te & Tp).
+  unfold zix_queries, zix_query_calls, zix_path_has_root_path, zix_path_has_root_name, zix_path_has_root_directory,
+    zix_path_has_relative_path, zix_path_has_parent_path, zix_path_has_filename, zix_path_has_stem,
+    zix_path_has_extension, zix_path_is_relative, zix_path_is_absolute, zstring.
+  rewrite root_path_range_eq, root_slices_eq, Hfn, Hst, Hex, Hpp. cbn [bind snd].
+  rewrite rootr_end. rewrite !rdr_ok by lia. cbn [bind sequence].
+  rewrite is_empty_range_rootr, is_dir_sep_eq, <- has_root_dir_znth.
+  unfold std_is_relative, std_is_absolute. rewrite std_has_root_path_eq, std_has_root_directory_eq.
+  assert (Q1 : negb (is_empty_range (pb, pe)) = std_has_parent_path s).
+  { unfold std_has_parent_path. rewrite <- Tp, path_is_empty_as_path. apply nonempty_range_text; lia. }
+  assert (Q2 : negb (is_empty_range (fb, fe)) = std_has_filename s).
+  { unfold std_has_filename. rewrite <- Tf. apply nonempty_range_text; lia. }
+  assert (Q3 : negb (is_empty_range (fb, m)) = std_has_stem s).
+  { unfold std_has_stem. rewrite <- Ts. apply nonempty_range_text; lia. }
+  rewrite Q1, Q2, Q3.
+  change (negb (is_empty_range (root_name_range (Some s)))) with (std_has_root_name s).
+  match goal with |- context [negb (is_empty_range ?r)] =>
+    assert (Q4 : negb (is_empty_range r) = std_has_extension s) end.
+  { unfold std_has_extension. rewrite <- Te. destruct (fb =? m) eqn:E.
+    - apply nonempty_range_text; lia.
+    - apply nonempty_range_text; lia. }
+  rewrite Q4. reflexivity.
+Qed.
+
+Lemma zix_queries_null : zix_queries None = Ok (std_queries []).
+Proof. reflexivity. Qed.
+
+(* ---- the statements of Properties_C10.v -------------------------------------------- *)
+Lemma L_root_name_eq : forall s v, zix_path_root_name s = Ok v -> view_text s v = std_root_name s.
+Proof. intros s v [= <-]. reflexivity. Qed.
+
+Lemma root_directory_text : forall s v, zix_path_root_directory s = Ok v -> view_text s v = std_root_directory s.
+Proof.
+  intros s v. unfold zix_path_root_directory. rewrite root_slices_eq. cbn [bind snd]. intros [= <-].
+  destruct (rootr s) as [b e] eqn:E. rewrite view_text_range. rewrite <- rootr_text, E. reflexivity.
+Qed.
+
+Lemma root_path_text : forall s v, zix_path_root_path s = Ok v -> view_text s v = std_root_path s.
+Proof.
+  intros s v. unfold zix_path_root_path. rewrite root_path_range_eq. cbn [bind]. intros [= <-].
+  destruct (rootr s) as [b e] eqn:E. rewrite view_text_range.
+  unfold std_root_path, std_root_name. cbn [app]. rewrite <- rootr_text, E. reflexivity.
+Qed.
+
+Lemma L_root_directory_equiv : forall s v, zix_path_root_directory s = Ok v ->
+  path_equiv (view_text s v) (std_root_directory s).
+Proof. intros s v H. unfold path_equiv. now rewrite (root_directory_text s v H). Qed.
+
+Lemma L_root_path_equiv : forall s v, zix_path_root_path s = Ok v ->
+  path_equiv (view_text s v) (std_root_path s).
+Proof. intros s v H. unfold path_equiv. now rewrite (root_path_text s v H). Qed.
+
+Lemma L_relative_path_eq : forall s v, zix_path_relative_path s = Ok v ->
+  view_text s v = std_relative_path s.
+Proof.
+  intros s v. unfold zix_path_relative_path. rewrite root_path_range_eq. cbn [bind]. intros [= <-].
+  rewrite view_text_range, rootr_end. unfold std_relative_path. now rewrite drop_seps_slice.
+Qed.
+
+Lemma L_parent_path_equiv : forall s v, zix_path_parent_path s = Ok v ->
+  as_path (view_text s v) = std_parent_path s.
+Proof.
+  intros s v. destruct (ranges_summary s) as (fb & fe & m & pb & pe & Hfn & Hst & Hex & Hpp & B1 & B2 & B3 & B4 & B5 &
+                                  B6 & B7 & Tf & Ts & Te & Tp).
+  unfold zix_path_parent_path. rewrite Hpp. cbn [bind]. intros [= <-]. now rewrite view_text_range.
+Qed.
+
+Lemma L_filename_eq : forall s v, zix_path_filename s = Ok v -> view_text s v = std_filename s.
+Proof.
+  intros s v. destruct (ranges_summary s) as (fb & fe & m & pb & pe & Hfn & Hst & Hex & Hpp & B1 & B2 & B3 & B4 & B5 &
+                                  B6 & B7 & Tf & Ts & Te & Tp).
+  unfold zix_path_filename. rewrite Hfn. cbn [bind]. intros [= <-]. now rewrite view_text_range.
+Qed.
+
+Lemma L_stem_eq : forall s v, zix_path_stem s = Ok v -> view_text s v = std_stem s.
+Proof.
+  intros s v. destruct (ranges_summary s) as (fb & fe & m & pb & pe & Hfn & Hst & Hex & Hpp & B1 & B2 & B3 & B4 & B5 &
+                                  B6 & B7 & Tf & Ts & Te & Tp).
+  unfold zix_path_stem. rewrite Hst. cbn [bind]. intros [= <-]. now rewrite view_text_range.
+Qed.
+
+Lemma L_extension_eq : forall s v, zix_path_extension s = Ok v -> view_text s v = std_extension s.
+Proof.
+  intros s v. destruct (ranges_summary s) as (fb & fe & m & pb & pe & Hfn & Hst & Hex & Hpp & B1 & B2 & B3 & B4 & B5 &
+                                  B6 & B7 & Tf & Ts & Te & Tp).
+  unfold zix_path_extension. rewrite Hex. cbn [bind]. intros [= <-].
+  destruct (fb =? m); now rewrite view_text_range.
+Qed.
+
+Lemma L_filename_is_stem_extension : forall s f st ex,
+  zix_path_filename s = Ok f -> zix_path_stem s = Ok st -> zix_path_extension s = Ok ex ->
+  view_text s f = view_text s st ++ view_text s ex.
+Proof.
+  intros s f st ex.
+  destruct (ranges_summary s) as (fb & fe & m & pb & pe & Hfn & Hst & Hex & Hpp & B1 & B2 & B3 & B4 & B5 &
+                                  B6 & B7 & Tf & Ts & Te & Tp).
+  unfold zix_path_filename, zix_path_stem, zix_path_extension. rewrite Hfn, Hst, Hex. cbn [bind].
+  intros [= <-] [= <-] [= <-]. destruct (fb =? m) eqn:E; rewrite !view_text_range.
+  - assert (fb = m) by lia. subst m.
+    assert (fb = fe) by (destruct (Z.eq_dec fb fe); [assumption|specialize (B4 ltac:(lia)); lia]).
+    subst fe. now rewrite slice_nil.
+  - assert (fe = slen s) by (apply B4; lia). subst fe. apply slice_app; lia.
+Qed.
+
+Definition range_ok (s : mstr) (r : range) : Prop := 0 <= rbegin r <= rend r /\ rend r <= slen s.
+
+Lemma L_ranges_in_bounds : forall s r,
+  In (Ok r) [root_path_range (Some s); parent_path_range s; filename_range s; stem_range s; extension_range s] \/
+  (exists n, root_slices (Some s) = Ok (n, r)) ->
+  range_ok s r.
+Proof.
+  intros s r H. pose proof (rootr_bounds s) as HR. pose proof (slen_nonneg s) as Hl.
+  destruct (ranges_summary s) as (fb & fe & m & pb & pe & Hfn & Hst & Hex & Hpp & B1 & B2 & B3 & B4 & B5 &
+                                  B6 & B7 & Tf & Ts & Te & Tp).
+  rewrite root_path_range_eq, root_slices_eq, Hfn, Hst, Hex, Hpp in H.
+  unfold range_ok, rbegin, rend in *.
+  destruct H as [H|(n & [= _ <-])]; [|exact HR].
+  cbn [In] in H.
+  destruct H as [[= <-]|[[= <-]|[[= <-]|[[= <-]|[H|[]]]]]]; cbn [fst snd]; try lia.
+  destruct (fb =? m) eqn:E; injection H as <-; cbn [fst snd]; lia.
+Qed.
+
+Lemma view_of_range_ok : forall s r, range_ok s r -> view_in_input s (range_string_view r).
+Proof. intros s [b e]. unfold range_ok, view_in_input, range_string_view, rbegin, rend. cbn [fst snd]. lia. Qed.
+
+Lemma L_views_are_slices : forall s v, In (Ok v) (zix_views s) -> view_in_input s v.
+Proof.
+  intros s v H. pose proof (slen_nonneg s) as Hl. pose proof (K_range s) as HK.
+  assert (HRO : forall r, In (Ok r) [root_path_range (Some s); parent_path_range s; filename_range s;
+                                      stem_range s; extension_range s] -> range_ok s r)
+    by (intros r Hr; apply L_ranges_in_bounds; now left).
+  unfold zix_views, zix_path_root_name, zix_path_root_directory, zix_path_root_path, zix_path_relative_path,
+    zix_path_parent_path, zix_path_filename, zix_path_stem, zix_path_extension in H.
+  assert (Hb : forall (x : res range) v', (r <- x ;; Ok (range_string_view r)) = Ok v' ->
+                exists r, x = Ok r /\ v' = range_string_view r).
+  { intros [r| |] v' Q; cbn [bind] in Q; try discriminate. injection Q as <-. now exists r. }
+  cbn [In] in H.
+  destruct H as [H|[H|[H|[H|[H|[H|[H|[H|[]]]]]]]]].
+  - injection H as <-. exact I.
+  - rewrite root_slices_eq in H. cbn [bind snd] in H. injection H as <-.
+    apply view_of_range_ok. apply L_ranges_in_bounds. right. exists (0, 0). apply root_slices_eq.
+  - apply Hb in H as (r & Hr & ->). apply view_of_range_ok, HRO. rewrite <- Hr. cbn [In]. tauto.
+  - rewrite root_path_range_eq in H. cbn [bind] in H. injection H as <-. rewrite rootr_end.
+    apply view_of_range_ok. unfold range_ok, rbegin, rend. cbn [fst snd]. lia.
+  - apply Hb in H as (r & Hr & ->). apply view_of_range_ok, HRO. rewrite <- Hr. cbn [In]. tauto.
+  - apply Hb in H as (r & Hr & ->). apply view_of_range_ok, HRO. rewrite <- Hr. cbn [In]. tauto.
+  - apply Hb in H as (r & Hr & ->). apply view_of_range_ok, HRO. rewrite <- Hr. cbn [In]. tauto.
+  - apply Hb in H as (r & Hr & ->). apply view_of_range_ok, HRO. rewrite <- Hr. cbn [In]. tauto.
+Qed.
+
+Lemma L_queries_eq : forall s, no_nul s -> zix_queries (Some s) = Ok (std_queries s).
+Proof. intros s H. rewrite zix_queries_some, (rel_nonempty_no_nul s H). reflexivity. Qed.
+
+Lemma sequence_all_ok : forall {A} (l : list (res A)) q, sequence l = Ok q ->
+  forall x, In x l -> exists a, x = Ok a.
+Proof.
+  induction l as [|y l IH]; intros q H x Hx; [destruct Hx|].
+  cbn [sequence] in H. destruct y as [a| |]; cbn [bind] in H; try discriminate.
+  destruct (sequence l) as [r| |] eqn:E; cbn [bind] in H; try discriminate.
+  destruct Hx as [<-|Hx]; [now exists a|]. now apply (IH r).
+Qed.
+
+(* no read outside the NUL-terminated input, no loop runs out of fuel: every call returns Ok *)
+Lemma L_reads_in_bounds : forall s,
+  (forall x, In x (zix_views s) -> exists v, x = Ok v) /\
+  (forall x, In x (zix_query_calls (Some s)) -> exists b, x = Ok b) /\
+  (forall x, In x (zix_query_calls None) -> exists b, x = Ok b).
+Proof.
+  intros s. split; [|split].
+  - destruct (ranges_summary s) as (fb & fe & m & pb & pe & Hfn & Hst & Hex & Hpp & _).
+    unfold zix_views, zix_path_root_name, zix_path_root_directory, zix_path_root_path, zix_path_relative_path,
+      zix_path_parent_path, zix_path_filename, zix_path_stem, zix_path_extension.
+    rewrite root_slices_eq, root_path_range_eq, Hfn, Hst, Hex, Hpp. cbn [bind].
+    intros x Hx. cbn [In] in Hx.
+    destruct Hx as [<-|[<-|[<-|[<-|[<-|[<-|[<-|[<-|[]]]]]]]]]; eexists; reflexivity.
+  - apply (sequence_all_ok _ _ (zix_queries_some s)).
+  - apply (sequence_all_ok _ _ zix_queries_null).
+Qed.
+
+(* ---- has_X is true exactly when the view X returns is non-empty --------------------- *)
+Lemma sequence_cons_inv : forall {A} (a : res A) l x r,
+  sequence (a :: l) = Ok (x :: r) -> a = Ok x /\ sequence l = Ok r.
+Proof.
+  intros A a l x r H. cbn [sequence] in H. destruct a as [y| |]; cbn [bind] in H; try discriminate.
+  destruct (sequence l) as [q| |]; cbn [bind] in H; try discriminate.
+  injection H as -> ->. split; reflexivity.
+Qed.
+
+Lemma queries_individual : forall s,
+  zix_path_has_root_path (Some s) = Ok (std_has_root_path s) /\
+  zix_path_has_root_name (Some s) = Ok (std_has_root_name s) /\
+  zix_path_has_root_directory (Some s) = Ok (std_has_root_directory s) /\
+  zix_path_has_relative_path (Some s) = Ok (negb (znth s (K s) =? 0)) /\
+  zix_path_has_parent_path (Some s) = Ok (std_has_parent_path s) /\
+  zix_path_has_filename (Some s) = Ok (std_has_filename s) /\
+  zix_path_has_stem (Some s) = Ok (std_has_stem s) /\
+  zix_path_has_extension (Some s) = Ok (std_has_extension s) /\
+  zix_path_is_absolute (Some s) = Ok (std_is_absolute s) /\
+  zix_path_is_relative (Some s) = Ok (std_is_relative s).
+Proof.
+  intros s. pose proof (zix_queries_some s) as H. unfold zix_queries, zix_query_calls in H.
+  repeat (apply sequence_cons_inv in H; destruct H as [? H]).
+  repeat split; assumption.
+Qed.
+
+Lemma negb_is_nil_iff : forall {A} (l : list A), negb (is_nil l) = true <-> l <> [].
+Proof. intros A [|x l]; cbn; split; intros H; try discriminate; try reflexivity; now try contradiction. Qed.
+
+Lemma L_has_iff : forall s,
+  (forall b v, zix_path_has_root_name (Some s) = Ok b -> zix_path_root_name s = Ok v ->
+               (b = true <-> view_text s v <> [])) /\
+  (forall b v, zix_path_has_root_directory (Some s) = Ok b -> zix_path_root_directory s = Ok v ->
+               (b = true <-> view_text s v <> [])) /\
+  (forall b v, zix_path_has_root_path (Some s) = Ok b -> zix_path_root_path s = Ok v ->
+               (b = true <-> view_text s v <> [])) /\
+  (forall b v, no_nul s -> zix_path_has_relative_path (Some s) = Ok b -> zix_path_relative_path s = Ok v ->
+               (b = true <-> view_text s v <> [])) /\
+  (forall b v, zix_path_has_parent_path (Some s) = Ok b -> zix_path_parent_path s = Ok v ->
+               (b = true <-> view_text s v <> [])) /\
+  (forall b v, zix_path_has_filename (Some s) = Ok b -> zix_path_filename s = Ok v ->
+               (b = true <-> view_text s v <> [])) /\
+  (forall b v, zix_path_has_stem (Some s) = Ok b -> zix_path_stem s = Ok v ->
+               (b = true <-> view_text s v <> [])) /\
+  (forall b v, zix_path_has_extension (Some s) = Ok b -> zix_path_extension s = Ok v ->
+               (b = true <-> view_text s v <> [])).
+Proof.
+  intros s.
+  destruct (queries_individual s) as (Q1 & Q2 & Q3 & Q4 & Q5 & Q6 & Q7 & Q8 & _).
+  repeat split; intros b v.
+  1,2: rewrite Q2; intros [= <-] [= <-]; cbn; [discriminate|contradiction].
+  1,2: rewrite Q3; intros [= <-] Hv; rewrite (root_directory_text s v Hv); apply negb_is_nil_iff.
+  1,2: rewrite Q1; intros [= <-] Hv; rewrite (root_path_text s v Hv); apply negb_is_nil_iff.
+  1,2: intros Hn; rewrite Q4, (rel_nonempty_no_nul s Hn); intros [= <-] Hv;
+       rewrite (L_relative_path_eq s v Hv); apply negb_is_nil_iff.
+  1,2: rewrite Q5; intros [= <-] Hv; unfold std_has_parent_path;
+       rewrite <- (L_parent_path_equiv s v Hv), path_is_empty_as_path; apply negb_is_nil_iff.
+  1,2: rewrite Q6; intros [= <-] Hv; rewrite (L_filename_eq s v Hv); apply negb_is_nil_iff.
+  1,2: rewrite Q7; intros [= <-] Hv; rewrite (L_stem_eq s v Hv); apply negb_is_nil_iff.
+  1,2: rewrite Q8; intros [= <-] Hv; rewrite (L_extension_eq s v Hv); apply negb_is_nil_iff.
+Qed.
